@@ -13,12 +13,17 @@ type Op struct {
 	Dim   int     `json:"dim,omitempty"`   // dim argument
 	Shape []int   `json:"shape,omitempty"` // Reshape / Broadcast target
 	Index []Range `json:"index,omitempty"` // Slice / Patch index
+	// Tie: for (Leaky)Relu, per-element weight in [0,1] of the derivative at an
+	// input of exactly 0 (0 = left derivative, 1 = right derivative).
+	Tie []float64 `json:"tie,omitempty"`
 }
 
 func (o Op) String() string {
 	switch o.K {
-	case "Scale", "Pow":
+	case "Scale", "Pow", "LeakyRelu":
 		return fmt.Sprintf("%s(%g)", o.K, o.F)
+	case "Softmax":
+		return fmt.Sprintf("Softmax(%d)", o.Dim)
 	case "Reshape", "Broadcast":
 		return fmt.Sprintf("%s(%v)", o.K, o.Shape)
 	case "Slice", "Patch":
@@ -38,6 +43,9 @@ var AlongKinds = []string{"SumAlong", "MaxAlong", "MinAlong", "AvgAlong", "VarAl
 
 // Arity is the number of tensor operands (receiver included); -1 = variadic.
 func (o Op) Arity() int {
+	if IsComposite(o.K) {
+		return compositeArity(o.K)
+	}
 	switch o.K {
 	case "Add", "Sub", "Mul", "Div", "ElMax", "ElMin", "Eq", "Ne", "Gt", "Ge", "Lt", "Le", "Dot", "MatMul", "Patch":
 		return 2
@@ -171,6 +179,9 @@ func ValidPatch(index []Range, src, dst []int) bool {
 // ResultShape returns the shape the operation is defined to produce, or
 // ok=false when the documented precondition is violated.
 func ResultShape(op Op, in [][]int) (shape []int, ok bool) {
+	if IsComposite(op.K) {
+		return compositeShape(op, in)
+	}
 	if a := op.Arity(); a >= 0 && len(in) != a {
 		return nil, false
 	}
@@ -287,6 +298,9 @@ func Eval(op Op, in []*T) (*T, bool) {
 	rs, ok := ResultShape(op, shapesOf(in))
 	if !ok {
 		return nil, false
+	}
+	if IsComposite(op.K) {
+		return compositeEval(op, in), true
 	}
 	switch op.K {
 	case "Scale", "Pow", "Exp", "Log", "Sin", "Cos", "Tan", "Sinh", "Cosh", "Tanh":
